@@ -63,11 +63,21 @@ def check_flip(ctx):
     if fn is None:
         raise AnalysisError("flip_branch_instr not found")
     ctx.fn("ir.flip_branch_instr")
+    # the function is executed abstractly (nqsa/circuit.py) for each of the six condition members, however its table is kept
+    from .. import circuit as C
+    from ..model import EnumMember
+    gi = repo.get_class("netqasm.lang.ir", "GenericInstr")
+    members = ctx.ev.enum_members(gi)
     table = {}
-    for n in ast.walk(fn):
-        if isinstance(n, ast.Dict):
-            for k, v in zip(n.keys, n.values):
-                table[dotted(k).split(".")[-1]] = dotted(v).split(".")[-1]
+    for c in sorted(CONDS.values()):
+        try:
+            out = C.Interp(repo, ctx.ev, C.Scenario(), None).call_function(m, fn, [EnumMember(gi.qualname, c, members[c])], {})
+            table[c] = out.name if isinstance(out, EnumMember) else repr(out)
+        except C.EvalRaise as ex_:
+            table[c] = f"<raises {ex_}>"
+        except AnalysisError as ex_:
+            ctx.error("C05.F", f"flip_branch_instr cannot be evaluated for {c}: {ex_}")
+            return
     pred = predicates()
     for c in sorted(CONDS.values()):
         f = table.get(c)
@@ -79,10 +89,6 @@ def check_flip(ctx):
                     if pred[f][1](a, b) == pred[c][1](a, b):
                         ok = False
         ctx.check("C05.F", f"flip:{c}", ok, f"flip_branch_instr maps {c} to {f}; it must map every condition to its logical negation and back", repo.loc(m, fn), sample={"condition": c, "flipped": f})
-    # subscripted by its own argument
-    p = A.param_names(fn)[0]
-    ok = any(isinstance(n, ast.Subscript) and isinstance(n.value, ast.Dict) and A.norm(n.slice) == p for n in ast.walk(fn))
-    ctx.check("C05.F", "flip:indexed-by-argument", ok, "flip_branch_instr does not index its table with its argument", repo.loc(m, fn), trivial=True)
 
 
 def check_api_names(ctx):
@@ -187,62 +193,70 @@ def check_condition_emit(ctx):
     okc = len(names) == 1 and cat == ["pre_commands", list(names)[0][0], "body_commands", list(names)[0][1]]
     ctx.check("C05.G", "_build_cmds_condition:pre+branch+body+label", okc, f"the commands are concatenated as {cat}; expected pre_commands + <branch commands> + body_commands + <exit label> (branch builders return (start, end) = {sorted(names)})", b.loc(fn), sample={"concat": cat})
     ok = any(A.norm(r.value) == "None" or r.value is None for r in A.returns(fn)) and any(isinstance(n, ast.If) and A.norm(n.test) == "len(body_commands)==0" for n in fn.body)
-    # branch builders
+    # branch builders: executed abstractly (nqsa/circuit.py) with _get_condition_operand, the label manager and the memory manager
+    # modelled: whatever the builder is written as, it must return (loads of op0 [+ loads of op1] + [branch(cond0[, cond1], Label(L))],
+    # [BranchLabel(L)]) for the one label L it took
+    from .. import circuit as C
     for name, nops in (("_get_branch_commands_single_operand", 1), ("_get_branch_commands", 2)):
         f2 = b.methods.get(name)
         if f2 is None:
             raise AnalysisError(f"{name} not found")
         ctx.fn(f"Builder.{name}")
-        bi = A.param_names(f2)[1]
-        ics = [e for e in E.icmds_in(f2) if e.instr == bi]
-        ok = len(ics) == 1
+        ok = loads_ok = False
         detail = ""
-        if ok:
-            ops = ics[0].ops()
-            d2 = A.single_defs(f2)
-            labvars = [k for k, v in d2.items() if isinstance(v, ast.Call) and A.call_name(v) == "new_label"]
-            condvars = [n.targets[0].elts[1].id for n in ast.walk(f2) if isinstance(n, ast.Assign) and isinstance(n.targets[0], ast.Tuple) and len(n.targets[0].elts) == 2
-                        and isinstance(n.value, ast.Call) and A.call_name(n.value) == "_get_condition_operand" and isinstance(n.targets[0].elts[1], ast.Name)]
-            lab = ops[-1]
-            labels = [A.norm(c.args[0]) for c in A.calls_in(f2) if A.call_name(c) == "BranchLabel"]
-            ok = len(labvars) == 1 and len(condvars) == 1 and lab == f"Label({labvars[0]})" and labels == [labvars[0]]
-            if nops == 1:
-                opn = A.param_names(f2)[2]
-                ok = ok and len(ops) == 2 and ops[0] == condvars[0]
-                ok = ok and any(A.call_name(c) == "_get_condition_operand" and len(c.args) == 1 and A.norm(c.args[0]) == opn for c in A.calls_in(f2))
-            else:
-                p0, p1 = A.param_names(f2)[2:4]
-                loops = [n for n in ast.walk(f2) if isinstance(n, ast.For)]
-                first = loops[0] if loops else None
-                lst = None
-                if first is not None:
-                    apps = [c for c in A.calls_in(first) if isinstance(c.func, ast.Attribute) and c.func.attr == "append" and c.args and A.norm(c.args[0]) == condvars[0]]
-                    lst = A.norm(apps[0].func.value) if apps else None
-                # operand k of the branch is the k-th condition operand: `lst[k]`, or a local unpacked from lst at position k
-                unpacked = {}
-                for n_ in ast.walk(f2):
-                    if isinstance(n_, ast.Assign) and isinstance(n_.targets[0], ast.Tuple) and isinstance(n_.value, ast.Name) and n_.value.id == lst:
-                        unpacked.update({e_.id: f"{lst}[{k_}]" for k_, e_ in enumerate(n_.targets[0].elts) if isinstance(e_, ast.Name)})
-                ops_c = [unpacked.get(o_, o_) for o_ in ops]
-                ok = ok and len(ops) == 3 and lst is not None and ops_c[0] == f"{lst}[0]" and ops_c[1] == f"{lst}[1]"
-                ok = ok and first is not None and A.norm(first.iter) in (f"[{p0},{p1}]", f"({p0},{p1})") and isinstance(first.target, ast.Name) and \
-                    any(A.call_name(c) == "_get_condition_operand" and len(c.args) == 1 and A.norm(c.args[0]) == first.target.id for c in A.calls_in(first))
-            detail = f"{ops}, labels {labels}"
-            # the label is defined in the list returned second (after the body)
-            rets = A.returns(f2)
-            ok = ok and len(rets) == 1 and isinstance(rets[0].value, ast.Tuple) and len(rets[0].value.elts) == 2
+        try:
+            for kinds in ((("future", "future"), ("int", "future"), ("future", "int"), ("int", "int")) if nops == 2 else (("future",), ("int",))):
+                labels, conds = [], {}
+                sc = C.Scenario()
+
+                def cond_operand(value, conds=conds):
+                    k = len(conds)
+                    r = C.RegSym(f"cond{k}")
+                    conds[id(value)] = (r, [f"load{k}a", f"load{k}b"] if isinstance(value, C.Obj) else [])
+                    return (list(conds[id(value)][1]), r)
+
+                def new_label(*a_, labels=labels, **kw_):
+                    labels.append(f"L{len(labels)}")
+                    return labels[-1]
+
+                sc.overrides["_get_condition_operand"] = cond_operand
+                bo = C.object_from_init(repo, b, {"_label_mgr": C.Obj(None, {"new_label": new_label}),
+                                                  "_mem_mgr": C.Obj(None, {"remove_active_register": lambda *a_, **k_: None, "add_active_register": lambda *a_, **k_: None})}, kind="self")
+                ops_in = [C.Obj(None, {"name": f"f{k}"}, "future") if kd == "future" else 40 + k for k, kd in enumerate(kinds)]
+                it = C.Interp(repo, ctx.ev, sc, b)
+                out = it.call_function(b.module, f2, ["BRANCH"] + ops_in, {}, self_obj=bo)
+                good = isinstance(out, tuple) and len(out) == 2 and isinstance(out[0], list) and isinstance(out[1], list) and len(labels) == 1 and out[0]
+                if good:
+                    start, end = out
+                    br = start[-1]
+                    want_ops = [conds[id(v)][0] for v in ops_in if id(v) in conds]
+                    want_loads = [x for v in ops_in for x in conds.get(id(v), (None, []))[1]]
+                    f_ = getattr(br, "fields", {})
+                    opsv = f_.get("operands") or []
+                    lab = opsv[-1] if opsv else None
+                    good = f_.get("instruction") == "BRANCH" and len(opsv) == nops + 1 and all(a_ is b_ for a_, b_ in zip(opsv[:-1], want_ops)) and len(want_ops) == nops \
+                        and isinstance(lab, C.Obj) and lab.cls is not None and lab.cls.name == "Label" and labels[0] in lab.fields.values() \
+                        and len(end) == 1 and isinstance(end[0], C.Obj) and end[0].cls is not None and end[0].cls.name == "BranchLabel" and labels[0] in end[0].fields.values()
+                    loads_now = list(start[:-1]) == want_loads
+                    detail = f"operands {opsv!r}, commands before the branch {start[:-1]!r}, end {end!r}"
+                    if not good:
+                        ok = False
+                        break
+                    ok = True
+                    loads_ok = loads_now if kinds == (("future",) * nops) or loads_ok or not want_loads else loads_ok
+                    if not loads_now:
+                        loads_ok = False
+                        break
+                else:
+                    ok = False
+                    detail = f"returns {out!r}"
+                    break
+        except (AnalysisError, C.EvalRaise) as ex_:
+            ctx.error("C05.G", f"Builder.{name} cannot be evaluated: {ex_}")
+            continue
         ctx.check("C05.G", f"{name}:branch-operands-and-exit-label", ok, f"{name}: branch emitted with {detail}; expected the condition operand(s) in order followed by the label that is defined after the body", b.loc(f2),
-                  sample={"builder": name, "branch": detail})
-        # loads of futures into the condition register precede the branch
-        rets = A.returns(f2)
-        startv = A.norm(rets[0].value.elts[0]) if rets and isinstance(rets[0].value, ast.Tuple) else None
-        app = []
-        d2 = A.single_defs(f2)
-        for kind_, e_ in (E.list_terms(f2, startv) or []) if startv else []:
-            e_ = A.expand(e_, {k_: v_ for k_, v_ in d2.items() if isinstance(v_, ast.Call) and A.call_name(v_) == "ICmd"})
-            app.append("branch" if kind_ == "item" and isinstance(e_, ast.Call) and A.call_name(e_) == "ICmd" else "loads")
-        ok = bool(app) and app[-1] == "branch" and "loads" in app[:-1] and app.count("branch") == 1
-        ctx.check("C05.G", f"{name}:loads-before-branch", ok, f"{name}: the commands loading the condition operands are not placed before the branch ({app})", b.loc(f2), trivial=True)
+                  sample={"builder": name, "branch": detail[:200]})
+        ctx.check("C05.G", f"{name}:loads-before-branch", ok and loads_ok, f"{name}: the commands loading the condition operands are not placed, in operand order, before the branch ({detail})", b.loc(f2), trivial=True)
     # _get_condition_operand: Future -> load into the returned register from its own address entry
     g = b.methods.get("_get_condition_operand")
     ics = E.icmds_in(g) if g else []
@@ -261,22 +275,49 @@ def check_loops(ctx):
     repo = ctx.repo
     b = repo.get_class(B, "Builder")
 
+    from .. import circuit as C
+
     def shape(fname):
+        """the emitter is executed abstractly with distinguishable arguments (it may delegate to another emitter, build its list step
+        by step, ...); what it returns is rendered with the parameter names the values stand for"""
         fn = b.methods.get(fname)
         if fn is None:
             raise AnalysisError(f"{fname} not found")
         ctx.fn(f"Builder.{fname}")
-        lst = E.returned_list(fn)
-        if lst is None:
-            raise AnalysisError(f"{fname}: does not return a list literal of commands")
+        lr = C.RegSym("loop_register")
+        given = {"loop_register": lr, "start": 700001, "stop": 900001, "step": 300001, "entry_label": "<entry>", "exit_label": "<exit>"}
+        kwargs = {p: given[p] for p in A.param_names(fn)[1:] if p in given}
+        missing = [p for p in A.param_names(fn)[1:] if p not in given]
+        if missing:
+            raise AnalysisError(f"{fname}: unexpected parameter(s) {missing}")
+        bo = C.object_from_init(repo, b, {}, kind="self")
+        try:
+            lst = C.Interp(repo, ctx.ev, C.Scenario(), b).call_function(b.module, fn, [], kwargs, self_obj=bo)
+        except C.EvalRaise as ex_:
+            raise AnalysisError(f"{fname}: raises {ex_}")
+        if not isinstance(lst, list):
+            raise AnalysisError(f"{fname}: does not return a list of commands")
+        back = {id(lr): "loop_register"}
+
+        def name_of(v):
+            if isinstance(v, C.Obj) and v.cls is not None and v.cls.name == "Label":
+                return "Label(" + ", ".join(name_of(x) for x in v.fields.values()) + ")"
+            if id(v) in back:
+                return back[id(v)]
+            for k_, g_ in given.items():
+                if not isinstance(g_, C.RegSym) and v == g_ and type(v) is type(g_):
+                    return k_
+            return repr(v)
+
         out = []
         for e in lst:
-            if e.kind == "label":
-                out.append(("LABEL", [A.norm(a) for a in e.operands]))
-            elif e.kind == "icmd":
-                out.append((e.instr, e.ops()))
+            if isinstance(e, C.Obj) and e.cls is not None and e.cls.name == "BranchLabel":
+                out.append(("LABEL", [name_of(x) for x in e.fields.values()]))
+            elif isinstance(e, C.Obj) and e.cls is not None and e.cls.name == "ICmd":
+                ins = e.fields.get("instruction")
+                out.append((getattr(ins, "name", str(ins)), [name_of(x) for x in (e.fields.get("operands") or [])]))
             else:
-                out.append(("?", [src(e.node)]))
+                out.append(("?", [repr(e)]))
         return fn, out
     exp = {
         "_loop_get_entry_commands": [("SET", ["loop_register", "start"]), ("LABEL", ["entry_label"]), ("BEQ", ["loop_register", "stop", "Label(exit_label)"])],
@@ -418,41 +459,52 @@ def check_at_most(ctx):
         raise AnalysisError("_loop_until_get_break_commands not found")
     ctx.fn("Builder._loop_until_get_break_commands")
     pred = predicates()
-    ics = [e for e in E.icmds_in(fn) if e.instr in pred]
-    if len(ics) != 1:
-        ctx.error("C05.U", f"expected one branch in _loop_until_get_break_commands, found {len(ics)}")
-        return
-    br = ics[0]
-    ops = br.operands
-    d = A.single_defs(fn)
-    elab = A.param_names(fn)[2]
-    co = [n for n in ast.walk(fn) if isinstance(n, ast.Assign) and isinstance(n.targets[0], ast.Tuple) and len(n.targets[0].elts) == 2 and isinstance(n.value, ast.Call) and A.call_name(n.value) == "_get_condition_operand"]
-    condv = co[0].targets[0].elts[1].id if len(co) == 1 and isinstance(co[0].targets[0].elts[1], ast.Name) else None
-    cvar = [k for k, v in d.items() if A.norm(v) == f"{A.param_names(fn)[1]}.exit_condition"]
-    ok_shape = len(ops) == 3 and condv is not None and A.norm(ops[0]) == condv and A.norm(ops[2]) == f"Label({elab})" and len(cvar) == 1 and \
-        len(co[0].value.args) == 1 and A.norm(A.expand(co[0].value.args[0], {k_: v_ for k_, v_ in d.items() if k_ not in cvar})) == f"{cvar[0]}.future"
-    cname = cvar[0] if cvar else "condition"
+    # executed abstractly (nqsa/circuit.py) for ValueAtMostConstraint(f, v) with v over a range: the one branch it emits, read as a
+    # predicate over the loaded value of f and the emitted bound, must hold exactly when f <= v, and it must jump to the exit label
+    from .. import circuit as C
+    vac = repo.get_class("netqasm.sdk.constraint", "ValueAtMostConstraint")
     bad = None
-    if ok_shape:
-        expr = A.expand(ops[1], {k_: v_ for k_, v_ in d.items() if k_ != cname})
-        for f in range(-3, 5):
-            for v in range(-3, 5):
-                r = G._Replace(f"{cname}.value", v)
-                e = r.visit(copy.deepcopy(expr))
-                ast.fix_missing_locations(e)
-                try:
-                    bound = ev.eval(e, b.module)
-                except Unknown:
-                    bad = ("unevaluable", src(expr))
-                    break
-                if pred[br.instr][1](f, bound) != (f <= v):
+    ok_shape = True
+    shown = ("?", "?")
+    try:
+        for v in range(-3, 5):
+            sc = C.Scenario()
+            cond_reg = C.RegSym("cond")
+            sc.overrides["_get_condition_operand"] = lambda value, cond_reg=cond_reg: ([C.Obj(None, {"model": "load", "of": value})], cond_reg)
+            fut = C.Obj(None, {"name": "f"}, "future")
+            ctxo = C.Obj(None, {"exit_condition": C.Obj(vac, {"future": fut, "_future": fut, "value": v, "_value": v})})
+            bo = C.object_from_init(repo, b, {"_mem_mgr": C.Obj(None, {"remove_active_register": lambda *a_, **k_: None, "add_active_register": lambda *a_, **k_: None})}, kind="self")
+            out = C.Interp(repo, ev, sc, b).call_function(b.module, fn, [ctxo, "<exit>"], {}, self_obj=bo)
+            brs = [x for x in (out or []) if isinstance(x, C.Obj) and x.cls is not None and x.cls.name == "ICmd" and getattr(x.fields.get("instruction"), "name", None) in pred]
+            if len(brs) != 1 or (out and out[-1] is not brs[0]):
+                ok_shape = False
+                break
+            ins = brs[0].fields["instruction"].name
+            ops = brs[0].fields.get("operands") or []
+            lab = ops[-1] if ops else None
+            if not (len(ops) == pred[ins][0] + 1 and ops[0] is cond_reg and isinstance(lab, C.Obj) and lab.cls is not None and lab.cls.name == "Label" and "<exit>" in lab.fields.values()
+                    and any(isinstance(x, C.Obj) and x.fields.get("model") == "load" and x.fields.get("of") is fut for x in out[:-1])):
+                ok_shape = False
+                break
+            bound = ops[1] if pred[ins][0] == 2 else 0
+            shown = (ins, bound if v != 0 else f"{bound} for v = 0")
+            if not isinstance(bound, int):
+                bad = ("unevaluable", repr(bound))
+                break
+            for f in range(-3, 5):
+                if pred[ins][1](f, bound) != (f <= v):
                     bad = bad or (f, v)
             if bad:
                 break
+    except C.EvalRaise as ex_:
+        ok_shape = False
+    except AnalysisError as ex_:
+        ctx.error("C05.U", f"_loop_until_get_break_commands cannot be evaluated: {ex_}")
+        return
     ctx.check("C05.U", "loop_until:ValueAtMost-exit-predicate", ok_shape and bad is None,
-              f"the exit branch for ValueAtMostConstraint(f, v) is `{br.instr.lower()} f, {src(ops[1]) if len(ops) > 1 else '?'}`; it differs from `f <= v` at (f, v) = {bad}"
-              if ok_shape else "the exit branch does not compare the constrained future with the constraint's value and jump to the loop exit", b.loc(br.node),
-              sample={"branch": br.instr, "bound": src(ops[1]) if len(ops) > 1 else None, "first_difference": bad})
+              f"the exit branch for ValueAtMostConstraint(f, v) is `{str(shown[0]).lower()} f, <{shown[1]}>`; it differs from `f <= v` at (f, v) = {bad}"
+              if ok_shape else "the exit branch does not compare the (loaded) constrained future with the constraint's value and jump to the loop exit", b.loc(fn),
+              sample={"branch": shown[0], "first_difference": bad})
     # the break is placed after the body (the condition is evaluated after each iteration)
     ctx.check("C05.U", "loop_until:only-ValueAtMost-supported", any(isinstance(n, ast.Call) and dotted(n.func) == "isinstance" and A.norm(n.args[1]) == "ValueAtMostConstraint" for n in ast.walk(fn)), "anchor changed: ValueAtMostConstraint dispatch not found", b.loc(fn), trivial=True)
 
@@ -460,66 +512,85 @@ def check_at_most(ctx):
 def check_future_ops(ctx):
     repo = ctx.repo
     fm = repo.module("netqasm.sdk.futures")
+    # add(): executed abstractly (nqsa/circuit.py) for other in {int, register, future} x mod in {None, int}, with the memory manager,
+    # the load/store command builders and the pending-command sink modelled.  Whatever it is written as, it must queue
+    #   loads(self -> t) [loads(other -> t2)]  ADD|ADDM [t, t, other|t2 (, mod)]  stores(t -> self) [...]
+    # with t (and t2) fresh temporaries for a Future, t = self.reg for a RegFuture.
+    from .. import circuit as C
+    fcls = fm.classes["Future"]
     for cname in ("Future", "RegFuture"):
         c = fm.classes.get(cname)
         fn = c.methods.get("add") if c else None
         if fn is None:
             raise AnalysisError(f"{cname}.add not found")
         ctx.fn(f"{cname}.add")
-        d = A.single_defs(fn)
-        po, pm = A.param_names(fn)[1:3]
-        first = {}
-        for st in fn.body:
-            if isinstance(st, ast.Assign) and isinstance(st.targets[0], ast.Name):
-                first.setdefault(st.targets[0].id, st.value)
-        # roles are read off the one emitted command: ICmd(instruction=<I>, operands=<O>), O = [<own register> x2, <other operand>]
-        ics = E.icmds_in(fn)
-        ok_i = len(ics) == 1 and isinstance(A.kwargs_of(ics[0].node).get("operands"), ast.Name) and isinstance(A.kwargs_of(ics[0].node).get("instruction"), ast.Name)
-        O = A.kwargs_of(ics[0].node)["operands"].id if ok_i else None
-        I_ = A.kwargs_of(ics[0].node)["instruction"].id if ok_i else None
-        ao = d.get(O) if O else None
-        elts = [A.norm(e) for e in ao.elts] if isinstance(ao, ast.List) else []
-        own = elts[0] if elts else None
-        if cname == "Future":
-            own_ok = own is not None and isinstance(first.get(own), ast.Call) and A.call_name(first[own]) == "get_inactive_register"
-        else:
-            own_ok = own == "self.reg"
-        ok_ops = len(elts) == 3 and elts[1] == own and own_ok and elts[2] != own
-        other_operand = elts[2] if len(elts) == 3 else None
-        # ADD without modulus, ADDM with the modulus appended
-        sel = [n for n in ast.walk(fn) if isinstance(n, ast.If) and A.norm(n.test) == f"{pm}isNone"]
-        ok_sel = False
-        if sel and ok_i:
-            t = [(A.norm(s_.targets[0]), A.norm(s_.value)) for s_ in sel[0].body if isinstance(s_, ast.Assign)]
-            f_ = [(A.norm(s_.targets[0]), A.norm(s_.value)) for s_ in sel[0].orelse if isinstance(s_, ast.Assign)]
-            app = [A.norm(c_) for s_ in sel[0].orelse for c_ in ast.walk(s_) if isinstance(c_, ast.Call) and A.norm(c_.func) == f"{O}.append"]
-            ok_sel = t == [(I_, "GenericInstr.ADD")] and f_ == [(I_, "GenericInstr.ADDM")] and app == [f"{O}.append({pm})"]
-        cat = None
-        for n in A.body_nodes(fn):
-            if isinstance(n, ast.Assign) and isinstance(n.value, ast.BinOp) and ok_i and any(x is ics[0].node for x in ast.walk(n.value)):
-                t = E.concat_terms(n.value)
-                cat = [t[0], t[-1]]
-        ok_cat = cat is not None and all(isinstance(first.get(x), (ast.Call, ast.List)) for x in cat) and cat[0] != cat[1]
-        ok_ls = True
-        if cname == "Future" and cat:
-            ok_ls = A.norm(first.get(cat[0], ast.Constant(value=0))) == f"self.get_load_commands({own})" and A.norm(first.get(cat[1], ast.Constant(value=0))) == f"self._get_store_commands({own})"
-        ctx.check("C05.A", f"{cname}.add", ok_ops and ok_i and ok_sel and ok_cat and ok_ls,
-                  f"{cname}.add: operands {src(ao) if ao is not None else None}, ADD/ADDM selection ok={ok_sel}, order {cat}; expected load -> add into the same register [own, own, other] (+mod for addm) -> store back",
-                  c.loc(fn), sample={"class": cname, "operands": src(ao) if ao is not None else None})
-        # the other Future operand is loaded into (and only into) its own temporary, which is the operand added
-        oth = [n for n in ast.walk(fn) if isinstance(n, ast.If) and A.norm(n.test) == f"isinstance({po},Future)"]
-        ok = False
-        if oth and cat:
-            loads = [c_ for c_ in ast.walk(oth[0]) if isinstance(c_, ast.Call) and A.norm(c_.func) == f"{po}.get_load_commands" and len(c_.args) == 1 and isinstance(c_.args[0], ast.Name)]
-            if len(loads) == 1:
-                t2 = loads[0].args[0].id
-                defs2 = {A.norm(x.targets[0]): A.norm(x.value) for x in oth[0].body if isinstance(x, ast.Assign)}
-                # t2 and the added operand are the same fresh register
-                fresh = [k for k, v in defs2.items() if v.endswith("get_inactive_register(activate=True)")]
-                same = len(fresh) == 1 and (t2 == fresh[0] or defs2.get(t2) == fresh[0]) and (other_operand == fresh[0] or defs2.get(other_operand) == fresh[0])
-                into_load = any(isinstance(x, ast.AugAssign) and A.norm(x.target) == cat[0] and any(y is loads[0] for y in ast.walk(x.value)) for x in oth[0].body)
-                ok = same and into_load
-        ctx.check("C05.A", f"{cname}.add:other-future-loaded", ok, f"{cname}.add does not load a Future `other` into its temporary before adding", c.loc(fn), trivial=True)
+        ok_all, ok_other, detail = True, True, ""
+        try:
+            for okind in ("int", "register", "future"):
+                for mod in (None, 700001):
+                    sc = C.Scenario()
+                    fresh, released, queued = [], [], []
+
+                    def get_reg(activate=False, fresh=fresh):
+                        fresh.append(C.RegSym(f"tmp{len(fresh)}"))
+                        return fresh[-1]
+
+                    def access(kind):
+                        # a modelled access command: it has operands like a real one (register, entry of its owner) but is no ICmd
+                        return lambda o, reg: [C.Obj(None, {"model": kind, "owner": o, "reg": reg, "instruction": kind, "operands": [reg, C.Obj(None, {"entry_of": o})]})]
+
+                    sc.method_overrides = {"get_load_commands": access("load"), "_get_store_commands": access("store")}
+
+                    def acc(x):
+                        return (x.fields["model"], x.fields["owner"], x.fields["reg"]) if isinstance(x, C.Obj) and x.cls is None and "model" in x.fields else None
+                    mem = C.Obj(None, {"get_inactive_register": get_reg, "remove_active_register": lambda r, released=released: released.append(r), "add_active_register": lambda r: None})
+                    bld = C.Obj(None, {"_mem_mgr": mem, "subrt_add_pending_commands": lambda cmds=None, commands=None, queued=queued: queued.extend(cmds if cmds is not None else commands)})
+                    own_reg = C.RegSym("self.reg")
+                    me = C.Obj(c, {"builder": bld, "reg": own_reg, "_reg": own_reg}, "self")
+                    other = 500001 if okind == "int" else C.RegSym("other_register") if okind == "register" else C.Obj(fcls, {"builder": bld}, "self")
+                    C.Interp(repo, ctx.ev, sc, c).call_function(fm, fn, [other], {"mod": mod}, self_obj=me)
+                    adds = [k for k, x in enumerate(queued) if isinstance(x, C.Obj) and x.cls is not None and x.cls.name == "ICmd"]
+                    detail = f"other={okind}, mod={mod}: queued {queued!r}"
+                    if len(adds) != 1:
+                        ok_all = False
+                        break
+                    k = adds[0]
+                    cmd = queued[k]
+                    ins = getattr(cmd.fields.get("instruction"), "name", None)
+                    ops = cmd.fields.get("operands") or []
+                    t = fresh[0] if cname == "Future" and fresh else own_reg
+                    want_third = other if okind != "future" else None
+                    good = ins == ("ADD" if mod is None else "ADDM") and len(ops) == (3 if mod is None else 4) and ops[0] is t and ops[1] is t and (mod is None or ops[3] == mod)
+                    if okind != "future":
+                        good = good and (ops[2] is other if okind == "register" else (len(ops) > 2 and ops[2] == other))
+                    else:
+                        t2 = ops[2] if len(ops) > 2 else None
+                        # the other future is loaded into (and only into) its own fresh temporary, which is the operand added
+                        oth_ok = isinstance(t2, C.RegSym) and t2 is not t and any(t2 is f_ for f_ in fresh) and any(acc(x) is not None and acc(x)[0] == "load" and acc(x)[1] is other and acc(x)[2] is t2 for x in queued[:k]) \
+                            and not any(acc(x) is not None and acc(x)[0] == "load" and acc(x)[1] is other and acc(x)[2] is not t2 for x in queued)
+                        ok_other = ok_other and oth_ok
+                    if cname == "Future":
+                        before = [acc(x) for x in queued[:k] if acc(x) is not None]
+                        after = [acc(x) for x in queued[k + 1:] if acc(x) is not None]
+                        good = good and any(t is f_ for f_ in fresh) and any(x[0] == "load" and x[1] is me and x[2] is t for x in before) and any(x[0] == "store" and x[1] is me and x[2] is t for x in after) \
+                            and not any(x[0] == "store" for x in before) and not any(x[0] == "load" for x in after)
+                    else:
+                        good = good and t is own_reg
+                    if not good:
+                        ok_all = False
+                        break
+                if not ok_all:
+                    break
+        except C.EvalRaise as ex_:
+            ok_all = False
+            detail += f" raises {ex_}"
+        except AnalysisError as ex_:
+            ctx.error("C05.A", f"{cname}.add cannot be evaluated: {ex_}")
+            continue
+        ctx.check("C05.A", f"{cname}.add", ok_all,
+                  f"{cname}.add: {detail[:300]}; expected load -> add into the same register [own, own, other] (+mod for addm) -> store back",
+                  c.loc(fn), sample={"class": cname})
+        ctx.check("C05.A", f"{cname}.add:other-future-loaded", ok_other and ok_all, f"{cname}.add does not load a Future `other` into its own temporary before adding ({detail[:200]})", c.loc(fn), trivial=True)
     # access commands: load/store [register, @address[index]]
     fut = fm.classes["Future"]
     ac = fut.methods.get("_get_access_commands")
